@@ -149,3 +149,98 @@ def native_cli(ck, ws, nrf, nrows):
         os.rmdir(tmp)
     _NC[key] = out
     return out
+
+
+# ------------------------------------------------------------------------------------------
+# `nuspacesim show_plot` (src/nuspacesim/apps/show_plot.py): the consumer of a results file
+# ------------------------------------------------------------------------------------------
+
+
+def show_plot_obligations(ck, variants):
+    """the command that reloads a results file evaluates for the file of every configuration a run can have (every spectrum and cloud
+    variant): what it reads from the reconstructed configuration exists on that variant.  The real callback is symbolically executed with
+    `config_from_fits` returning the variant's real configuration object, the table reader and the four plot dispatchers as stubs."""
+    import nuspacesim.apps.show_plot as SM
+
+    ck.add_file("nuspacesim/apps/show_plot.py")
+    qn = "apps.show_plot:show_plot"
+    fn = SM.show_plot.callback
+    for name, cfg in variants:
+        log = []
+
+        class Tbl(Stub):
+            meta = {}
+            colnames = []
+
+            def __len__(self):
+                return 7
+
+        def disp(interp, *a, **k):
+            log.append("dispatch")
+
+        class TableCls(Stub):
+            """stands for astropy's Table class in the module's namespace while the callback is explored: `Table.read(path)` gives a table"""
+
+            @staticmethod
+            def read(*a, **k):
+                return Tbl()
+
+        ov = {SM.config_from_fits: lambda interp, f, cfg=cfg: cfg, SM.read_plot_config: lambda interp, *a, **k: [],
+              SM.simulation.geometry.region_geometry.show_plot: disp, SM.simulation.taus.taus.show_plot: disp, SM.simulation.eas_optical.eas.show_plot: disp, SM.plots.show_plot: disp}
+        tag = "[%s]" % name
+        real_table = SM.AstropyTable
+        try:
+            SM.AstropyTable = TableCls
+            it = harness.make_interp(ov)
+            paths = it.explore(lambda: (fn, [], {"simulation_file": "RUN.fits", "plot": [], "plotconfig": None, "plotall": False}))
+        except Exception as ex:
+            SM.AstropyTable = real_table
+            o = ck.ob("%s/exec%s" % (qn, tag), "exec")
+            o.note = "the command's callback could not be set up on this tree: %r" % ex
+            ck._undecided(o, None)
+            continue
+        finally:
+            SM.AstropyTable = real_table
+        ck.add_functions(it)
+        if any(p.kind == "unsupported" for p in paths) or not paths:
+            o = ck.ob("%s/exec%s" % (qn, tag), "exec")
+            o.note = str([(p.kind, str(p.exc)[:100]) for p in paths])[:300]
+            ck._undecided(o, lambda name=name, cfg=cfg: native_show_plot(ck, name, cfg))
+            continue
+        bad = [p for p in paths if p.kind != "return"]
+        ck.direct("%s/post.evaluates%s" % (qn, tag), not bad, "post", "symbolic execution (stub collaborators, the variant's real configuration object)",
+                  clause="show_plot evaluates for the results file of this configuration variant (it reads nothing from the configuration that the variant does not have)",
+                  note="; ".join("%s %s" % (p.kind, str(p.exc)[:120]) for p in bad)[:240], witness=None if not bad else {"variant": name},
+                  replay_out=None if not bad else native_show_plot(ck, name, cfg))
+
+
+def native_show_plot(ck, name, cfg):
+    """a real results file of that variant (a short run, written as the run command writes it), reloaded through the real command"""
+    import contextlib
+    import copy
+    import importlib
+    import io
+
+    from click.testing import CliRunner
+
+    import nuspacesim.apps.show_plot as SM
+
+    C = importlib.import_module("nuspacesim.compute")
+    tmp = tempfile.mkdtemp(prefix="clis_", dir=os.environ.get("XDG_RUNTIME_DIR") or None)
+    try:
+        c = copy.deepcopy(cfg)
+        c.simulation.thrown_events = 150
+        c.detector.radio.enable = False
+        path = os.path.join(tmp, "run.fits")
+        with contextlib.redirect_stdout(io.StringIO()), contextlib.redirect_stderr(io.StringIO()), np.errstate(all="ignore"):
+            np.random.seed(ck.seed + 6)
+            t = C.compute(c)
+            t.write(path, format="fits", overwrite=True)
+            r = CliRunner().invoke(SM.show_plot, [path], catch_exceptions=True)
+        return {"violated": r.exit_code != 0, "input": {"results file of": name, "command": "nuspacesim show_plot run.fits"}, "observed": {"exit code": r.exit_code, "exception": repr(r.exception)[:200] if r.exception else None}}
+    except Exception as ex:
+        return {"violated": None, "note": "native show_plot run failed: %r" % ex}
+    finally:
+        for f in os.listdir(tmp):
+            os.unlink(os.path.join(tmp, f))
+        os.rmdir(tmp)
